@@ -238,37 +238,64 @@ def _parent(root, node):
 
 
 def rule_init_guards(ck, rid="C03.R5"):
+    """a caller-supplied charge reaches the stored state only on paths whose condition implies `charge <= capacity` (decision table of
+    the constructor and of reset; compound guards are evaluated propositionally), and the complementary paths raise"""
+    from .. import pathtab
     repo = ck.repo
     n_st = 0
     for q, cap_names in (("Battery.__init__", ("capacity", "self._capacity")), ("Battery.reset", ("self._capacity",))):
         f = repo.fn(q)
         fl = flow_of(f)
-        params = set(f.params[1:])
-        for n, k, p, t in state_writes(fl):
-            if p not in ("self._current_charge", "self._init_charge"):
+        params = set(f.params[1:]) - {"capacity", "max_power"}
+        rows = pathtab.table(fl)
+        bad_seen = set()
+        for r in rows:
+            for kind, k, st, node in r.effects:
+                if kind != "store" or not isinstance(st, ast.Assign):
+                    continue
+                tgt = canon(st.targets[0])
+                if tgt not in ("self._current_charge", "self._init_charge"):
+                    continue
+                roots = sig(pathtab.path_expand(fl, r.nodes, st.value, r.nodes.index(node))) & params
+                if not roots:
+                    continue        # not caller-supplied (e.g. self._init_charge)
+                n_st += 1
+
+                def over(key, a, roots=roots):
+                    c = pathtab.split_key(key)
+                    return bool(c) and ((c[1] == "<" and c[0] in cap_names and c[2] in roots) or (c[1] == "<=" and c[0] in roots and c[2] in cap_names))
+                keys = [kk for kk, t, a, nn in r.facts if over(kk, a)]
+                v = pathtab.implied(fl, r, over)
+                # orientation: `cap < x` must be false, `x <= cap` must be true
+                def want_of(key):
+                    return pathtab.split_key(key)[1] == "<="
+                tkey = None
+                for t_, lab in r.tests:
+                    at = {}
+                    pathtab._atoms_of(fl.expand(t_.expr, t_), at)
+                    for kk in at:
+                        if over(kk, at[kk]):
+                            tkey = kk
+                ok = tkey is not None and v is not None and v == want_of(tkey)
+                if not ok and (id(st), tgt) not in bad_seen:
+                    bad_seen.add((id(st), tgt))
+                    ck.violation(rid, f, st, "a caller-supplied charge is stored on a path whose condition does not imply `charge <= capacity` "
+                                 f"(path: {r.describe(120)})", sink=f"unguarded-store:{tgt.split('.')[-1]}")
+                elif ok:
+                    ck.holds(rid, f, st, "a caller-supplied charge is stored only when it does not exceed the capacity")
+        # the rejecting paths raise: no normally-ending path has `charge > capacity` established
+        for r in rows:
+            if r.end == "raise":
                 continue
-            v = fl.expand(n.stmt.value, n)
-            roots = sig(v) & params
-            roots -= {"capacity", "max_power"}
-            if not roots:
-                continue        # not caller-supplied (e.g. self._init_charge)
-            n_st += 1
-            ok = False
-            for a, tr in facts_at(fl, n):
-                c = cmp_norm(a, tr)
-                if c and canon(c[0]) in roots and c[1] in ("<=", "<") and canon(c[2]) in cap_names:
-                    ok = True
-            ck.require(ok, rid, f, n.stmt, ok="a caller-supplied charge is stored only when it does not exceed the capacity",
-                       bad="a caller-supplied charge is stored without the `charge > capacity` rejection guarding it", sink=f"unguarded-store:{p.split('.')[-1]}")
-        # the rejecting edge raises
-        from ..flow import edge_facts
-        for e in fl.cfg.nodes:
-            if e.kind == "edge" and e.test.kind == "test":
-                for a, tr in edge_facts(e.test.expr, e.label):
-                    c = cmp_norm(a, tr)
-                    if c and canon(c[2]) in params and c[1] == "<" and canon(c[0]) in cap_names:
-                        ck.require(fl.cfg.exit not in fl.cfg.reach(e), rid, f, e.test.expr, ok="the rejecting edge always raises",
-                                   bad="the over-capacity edge can fall through", sink="reject-falls-through")
+            for p_ in params:
+                def over_p(key, a, p_=p_):
+                    c = pathtab.split_key(key)
+                    return bool(c) and ((c[1] == "<" and c[0] in cap_names and c[2] == p_) or (c[1] == "<=" and c[0] == p_ and c[2] in cap_names))
+                v = pathtab.implied(fl, r, over_p)
+                tk = [kk for t_, lab in r.tests for kk in (lambda d: (pathtab._atoms_of(fl.expand(t_.expr, t_), d), d)[1])({}) if over_p(kk, None)]
+                if v is not None and tk and v != (pathtab.split_key(tk[0])[1] == "<="):
+                    ck.violation(rid, f, r.describe(160), "a path on which the supplied charge exceeds the capacity ends normally (the rejection can fall through)",
+                                 sink="reject-falls-through")
     ck.floor(rid, n_st, 3, "stores of caller-supplied charge in Battery.__init__/reset")
 
 
